@@ -27,6 +27,27 @@ func init() {
 	ops["mapping"] = opMapping
 	ops["rand_u8"] = opRandU8
 	ops["decode_shared"] = opDecodeShared
+	ops["unprotect_shared"] = opUnprotectShared
+}
+
+// opUnprotectShared: a decoder with its OWN key object unprotects a datagram
+// that other tasks unprotect too, reading the same slice (no copy).
+func opUnprotectShared(w *World, s *Step) (string, string) {
+	if s.Ref < 0 || s.Ref >= len(sharedInputs) || sharedInputs[s.Ref] == nil || s.Suite == nil || s.Keys == nil {
+		return "noshared", "noshared"
+	}
+	in := sharedInputs[s.Ref]
+	key, err := newKeyObj(*s.Suite, s.Keys)
+	if err != nil {
+		return "nokey", "nokey"
+	}
+	pre := s.Rx != nil && s.Rx.PreHdr
+	m, res := unprotect(in, key, "R", pre)
+	h := uint64(0)
+	if res.class() == "ok" {
+		h = fnv1a(0, extract(m).canon())
+	}
+	return fmt.Sprintf("%s:%x", res.class(), h), "unprotect_shared:" + res.class()
 }
 
 func opPlainCodec(w *World, s *Step) (string, string) {
